@@ -95,10 +95,14 @@ def gen_world(seed, classes=ALL_CLASSES, want_constraints=0.3, node_p=0.25, tag=
             # the walk models accept any digraph, also an acyclic one (bubbles, bridges, bow-ties)
             g = gen.dag_bowtie(rv, float_w=float_w) if rv.random() < 0.4 else gen.dag_layered(rv, max_nodes=6, max_edges=8, max_routes=3, float_w=float_w)
             g = dict(g, kind="digraph")
+        rl = random.Random(H(seed, tag, "laps"))
+        if flow_decomp and rl.random() < 0.12:
+            # every element to be explained lies on a cycle that each walk takes >= 2 times; entry / exit edges ignored
+            g = gen.digraph_laps(rl, float_w=float_w)
     if g.get("routes") is None:
         # bow-tie graphs carry no generating routes: derive some by peeling for constraints
         g = dict(g)
-    node_mode = rng.random() < node_p and g.get("routes") is not None
+    node_mode = rng.random() < node_p and g.get("routes") is not None and not g.get("entry_exit")
     args = {}
     so = {}
     if rng.random() < 0.3:
@@ -275,6 +279,59 @@ def gen_world(seed, classes=ALL_CLASSES, want_constraints=0.3, node_p=0.25, tag=
             tot = float(sum(lens.values()))
             args["subpath_constraints_coverage_length"] = int(100 * lens[tuple(pair[big])] / tot - 1) / 100.0
             args["length_attr"] = "len"
+    rt = random.Random(H(seed, tag, "tail"))
+    if dag and not node_mode and g.get("hub_pairs") and rt.random() < 0.3:
+        # a three-edge constraint around a hub - an edge into it, an edge out of it with another flow value, and a "tail" edge
+        # appended behind that one - to be covered for 0.6 (two of the three edges): a path through the out-edge and the tail
+        # satisfies it, whereas any *part* of the constraint (its first two edges alone) would need the mismatched pair on
+        # one path.  Code that looks at a window of the graph must not clip the constraint.
+        cand = [pr for pr in g["hub_pairs"] if not any(e[0] == pr[1][1] for e in graph["edges"])]
+        if flow_decomp and rt.random() < 0.6:
+            # a purpose-built hub: the values entering and leaving it are the same multiset (so a decomposition with as many
+            # paths as values exists), the constraint pairs two different values, the tail hangs behind (or a head before)
+            cand = []
+            pool_ = gen.names(rt, 9)
+            P = rt.choice([[3, 2], [4, 1], [2, 1, 3], [5, 2], [1, 2], [4, 3, 1]])
+            Q = P[1:] + P[:1]
+            sc_ = rt.choice([0.5, 1.5]) if float_w else 1
+            h_ = pool_.pop()
+            ins = [[pool_.pop(), h_, p_ * sc_] for p_ in P]
+            outs = [[h_, pool_.pop(), q_ * sc_] for q_ in Q]
+            i_ = rt.randrange(len(P))
+            j_ = rt.choice([j for j in range(len(Q)) if Q[j] != P[i_]])
+            if rt.random() < 0.5:
+                extra = [outs[j_][1], pool_.pop(), outs[j_][2]]
+                con_ = [ins[i_][:2], outs[j_][:2], extra[:2]]
+            else:
+                extra = [pool_.pop(), ins[i_][0], ins[i_][2]]
+                con_ = [extra[:2], ins[i_][:2], outs[j_][:2]]
+            ee = ins + outs + [extra]
+            rt.shuffle(ee)
+            nn = []
+            for u_, v_, _ in ee:
+                for x_ in (u_, v_):
+                    if x_ not in nn:
+                        nn.append(x_)
+            graph = {"kind": "dag", "nodes": nn, "edges": ee, "routes": None, "weights": None}
+            g = dict(graph, hub_pairs=[], hub_pairs_used=True)
+            args[cons_key] = [con_]
+            args[cons_key + "_coverage"] = 0.6
+            args.pop("subpath_constraints_coverage_length", None)
+            args.pop("length_attr", None)
+        if cand:
+            pr = rt.choice(cand)
+            t_ = pr[1][1]
+            t2 = [x for x in ("tl", "y.1", "z9", "tl2") if x not in graph["nodes"]][0]
+            f_ = [e[2] for e in graph["edges"] if [e[0], e[1]] == list(pr[1])][0]
+            graph = dict(graph)
+            graph["edges"] = [list(e) for e in graph["edges"]] + [[t_, t2, f_]]
+            graph["nodes"] = list(graph["nodes"]) + [t2]
+            graph.pop("edge_lengths", None)
+            g = dict(g, hub_pairs_used=True)
+            args[cons_key] = [[list(pr[0]), list(pr[1]), [t_, t2]]]
+            args[cons_key + "_coverage"] = 0.6
+            args.pop("subpath_constraints_coverage_length", None)
+            args.pop("length_attr", None)
     if cons_key not in args and not node_mode and rng.random() < 0.15:
         # a coverage fraction although there are no constraints: a legal call in which the fraction must mean nothing
         if dag and rng.random() < 0.3:
@@ -297,6 +354,12 @@ def gen_world(seed, classes=ALL_CLASSES, want_constraints=0.3, node_p=0.25, tag=
             ign = []
         if ign:
             args["elements_to_ignore"] = ign
+    if g.get("entry_exit"):
+        args["elements_to_ignore"] = [list(e) for e in g["entry_exit"]]
+        if "k" in args:
+            args["k"] = len(g["routes"]) + (1 if rl.random() < 0.25 else 0)
+        if cons_key not in args and rl.random() < 0.4:
+            args[cons_key] = [[list(rl.choice(g["back_edges"]))]]
     # additional starts / ends
     if rng.random() < 0.2 and len(graph["nodes"]) >= 3 and (node_mode or not flow_decomp):
         cand = list(graph["nodes"])
